@@ -5,6 +5,7 @@ import CtrlVerif.Driver.Config
 import CtrlVerif.Driver.Index
 import CtrlVerif.Driver.FRD
 import CtrlVerif.Driver.Dt
+import CtrlVerif.Driver.DtExpr
 import CtrlVerif.Driver.Nyquist
 import CtrlVerif.Driver.Margins
 import CtrlVerif.Driver.IC
@@ -32,6 +33,7 @@ def dispatch (line : String) : String :=
   | "idx" :: rest => Index.handle rest
   | "frd" :: rest => FRD.handle rest
   | "dt" :: rest => DtFam.handle rest
+  | "dtx" :: rest => DtExprFam.handle rest
   | "nyq" :: rest => Nyquist.handle rest
   | "mg" :: rest => Margins.handle rest
   | "ic" :: rest => IC.handle rest
